@@ -461,6 +461,25 @@ def normalize(e):
     if k == 'Call' and callee_is(e, 'RangeInclusive::new'):
         return {'k': 'Range', 'incl': True, 'ch': [e['ch'][1], e['ch'][2]], 'sp': e.get('sp'),
                 'id': e.get('id'), 'ty': e.get('ty')}
+    # `match r { Ok(v) => v, Err(e) => return Err(e) }` is `r?` (same error type)
+    if k == 'Match' and not e.get('src', '').endswith('Desugar') and len(e.get('arms', [])) == 2 and \
+            not any('guard' in a for a in e['arms']):
+        def _ctor(p, nm):
+            return p.get('k') == 'TupleStruct' and strip_generics(p.get('def', '')).endswith('::' + nm) and \
+                len(p.get('ch', [])) == 1 and p['ch'][0].get('k') == 'Binding'
+        okarm = [a for a in e['arms'] if _ctor(a['pat'], 'Ok')]
+        errarm = [a for a in e['arms'] if _ctor(a['pat'], 'Err')]
+        if len(okarm) == 1 and len(errarm) == 1:
+            ob, eb = peel(okarm[0]['body']), peel(errarm[0]['body'])
+            if eb.get('k') == 'Block' and len(eb.get('stmts', [])) == 1 and 'expr' not in eb:
+                eb = peel(eb['stmts'][0].get('e', {}))
+            ret = eb if eb.get('k') == 'Ret' and eb.get('ch') else None
+            rv = peel(ret['ch'][0]) if ret else {}
+            if ob.get('k') == 'Path' and ob.get('local') == okarm[0]['pat']['ch'][0].get('local') and \
+                    rv.get('k') == 'Call' and strip_generics(rv.get('callee', '')).endswith('::Err') and \
+                    len(rv['ch']) == 2 and peel(rv['ch'][1]).get('local') == errarm[0]['pat']['ch'][0].get('local'):
+                return {'k': 'Match', 'src': 'TryDesugar', 'ch': [e['ch'][0]], 'arms': e['arms'],
+                        'sp': e.get('sp'), 'id': e.get('id'), 'ty': e.get('ty'), 'manual_try': True}
     # `match o { Some(p) => A, None => B }` is `if let Some(p) = o { A } else { B }`
     if k == 'Match' and not e.get('src', '').endswith('Desugar') and len(e.get('arms', [])) == 2 and \
             not any('guard' in a for a in e['arms']):
@@ -479,7 +498,8 @@ def normalize(e):
             inner = some['pat']['ch'][0] if len(some['pat'].get('ch', [])) == 1 else {}
             psb, pnb = peel(sb), peel(nb)
             if inner.get('k') == 'Binding' and psb.get('k') == 'Path' and psb.get('local') == inner.get('local') \
-                    and pnb.get('k') in ('Lit', 'Path'):
+                    and (pnb.get('k') in ('Lit', 'Path') or
+                         (pnb.get('k') == 'Call' and len(pnb.get('ch', [])) == 1)):
                 return {'k': 'MethodCall', 'method': 'unwrap_or',
                         'callee': 'std::option::Option::<T>::unwrap_or', 'ch': [e['ch'][0], nb],
                         'sp': e.get('sp'), 'id': e.get('id'), 'ty': e.get('ty')}
